@@ -1,4 +1,5 @@
 import ElaVerif.Lemmas.DepositInv
+import ElaVerif.Model.CRDeposit
 /-!
 # C28 — deposits and vote rights are never overdrawn  (claimed **partial**)
 
@@ -265,5 +266,38 @@ example : ¬ Guarded wRets := by
   intro h; have := h.1 0; simp [wRets, isDebit] at this
 example : ¬ Guarded wVotes := by
   intro h; have := h.2 0; simp [wVotes, isConsumer] at this
+
+/-! ## CR candidates' deposits (`Model/CRDeposit.lean`, driven through the real cr/state path) -/
+
+open ElaVerif.CRDeposit in
+/-- **Partial** (step level, CR side): a ReturnCRDepositCoin that passes the context check against the
+    candidate's account as it stands leaves the lock covered and takes at most the available amount. -/
+theorem C28_cr_return_step_partial (P : Params) (h o : Nat) (a : CRAcct) (inp tinp change out : Int)
+    (hpen : 0 ≤ a.penalty) (_hcov : a.deposit ≤ a.total) (htr : tinp ≤ inp)
+    (hc : CRDeposit.check [(o, a)] (.ret o inp tinp change out) = none) :
+    let a' := CRDeposit.step P h a (.ret o inp tinp change out) a
+    a'.deposit ≤ a'.total ∧ 0 ≤ a'.available ∧ a'.available = a.available - (tinp - change) := by
+  simp only [CRDeposit.check, Deposit.get, if_true] at hc
+  split at hc
+  · cases hc
+  · rename_i hn
+    simp only [CRDeposit.step, CRAcct.available] at hn ⊢
+    refine ⟨by omega, by omega, by omega⟩
+
+open ElaVerif.CRDeposit in
+/-- the CR side has the same excluded point: two returns of one candidate in one block (witness replayed on
+    the real code from `corpus/C28/two-cr-returns-one-block.ops`): total 4000 ELA below the 5000 ELA lock. -/
+theorem C28_cr_two_returns_false :
+    ¬ (∀ (P : Params) (h : Nat) (s : AMap CRAcct) (txs : List CRTx) (o : Nat) (a a' : CRAcct),
+        get o s = some a → a.deposit ≤ a.total → 0 ≤ a.penalty →
+        (∀ tx ∈ txs, CRDeposit.check s tx = none) →
+        get o (CRDeposit.applyTxs P h s txs) = some a' → a'.deposit ≤ a'.total) := by
+  intro hfull
+  have := hfull wP 10 [(0, ⟨900000000000, 500000000000, 0, .active, 1, 0⟩)]
+    [.ret 0 500000000000 500000000000 200000000000 299999999900, .ret 0 200000000000 200000000000 0 199999999900]
+    0 ⟨900000000000, 500000000000, 0, .active, 1, 0⟩ ⟨400000000000, 500000000000, 0, .active, 1, 0⟩ (by decide) (by decide) (by decide)
+    (by intro tx htx; simp only [List.mem_cons, List.mem_nil_iff, or_false] at htx
+        rcases htx with rfl | rfl <;> decide) (by decide)
+  revert this; decide
 
 end ElaVerif.C28
